@@ -85,6 +85,7 @@ fn work(args: &[String]) -> ExitCode {
 
     let mut progress = std::fs::File::create(format!("{out}.progress")).expect("cannot create progress file");
     let mut fps: Vec<u8> = Vec::new();
+    let mut schs: Vec<u8> = Vec::new();
     let mut agg = Agg::default();
     let mut runs = 0u64;
     let mut evaluations = 0u64;
@@ -110,6 +111,9 @@ fn work(args: &[String]) -> ExitCode {
         for (fp, nt) in &rep.fingerprints {
             let v = (fp & !1) | (*nt as u64);
             fps.extend_from_slice(&v.to_le_bytes());
+        }
+        for h in &rep.schedule_hashes {
+            schs.extend_from_slice(&h.to_le_bytes());
         }
         agg.merge(&rep.agg);
         let n_violations = rep.violations.len() as u64;
@@ -148,6 +152,7 @@ fn work(args: &[String]) -> ExitCode {
     let _ = progress.seek(SeekFrom::Start(0));
     let _ = write!(progress, "{:020}\n", u64::MAX);
     std::fs::write(format!("{out}.fp"), &fps).expect("cannot write fingerprints");
+    std::fs::write(format!("{out}.sch"), &schs).expect("cannot write schedule hashes");
     let summary = json!({
         "property": ctx.property,
         "tier": ctx.tier,
